@@ -86,6 +86,44 @@ func genC20(ctx *Ctx) []Case {
 		}
 	}
 	rec(nil)
+	// long runs: a flush that has to shift more than a few dozen existing entries
+	// (descending arrival with batch size 1; a big table then one hash that sorts below it;
+	// ascending then interleaved), boundary run lengths around 32/33/64/65
+	longHash := func(i int) []byte {
+		h := make([]byte, 16)
+		h[0] = byte(i / 40)
+		h[1] = byte(i % 40)
+		h[15] = byte(i)
+		return h
+	}
+	for _, n := range []int{31, 32, 33, 34, 64, 65, 100} {
+		for _, bsz := range []int{1, 3, 0} {
+			// descending
+			ops := xt.N()
+			for i := n; i >= 1; i-- {
+				ops.Add(c20Op(0, longHash(i), 0))
+			}
+			ops.Add(c20Op(1, nil, 0), c20Op(5, nil, 0))
+			for _, i := range []int{1, 2, n / 2, n - 1, n, n + 1} {
+				ops.Add(c20Op(2, longHash(i), 0))
+			}
+			ops.Add(c20Op(3, nil, bsz), c20Op(5, nil, 0), c20Op(2, longHash(2), 0))
+			cases = append(cases, Case{Tag: "longrun", Nontrivial: true, C: xt.N(xt.LI(bsz), ops)})
+			// big table, flush, then hashes below / in the middle
+			ops = xt.N()
+			for i := 2; i <= n+1; i++ {
+				ops.Add(c20Op(0, longHash(2*i), 0))
+			}
+			ops.Add(c20Op(1, nil, 0))
+			ops.Add(c20Op(0, longHash(1), 0), c20Op(1, nil, 0), c20Op(5, nil, 0))
+			ops.Add(c20Op(0, longHash(n+1), 0), c20Op(0, longHash(7), 0), c20Op(1, nil, 0), c20Op(5, nil, 0))
+			for _, i := range []int{1, 4, 7, n + 1, 2 * n, 2*n + 2, 3} {
+				ops.Add(c20Op(2, longHash(i), 0))
+			}
+			cases = append(cases, Case{Tag: "longrun", Nontrivial: true, C: xt.N(xt.LI(bsz), ops)})
+			ctx.Count("longrun_cases")
+		}
+	}
 	// random sequences
 	n := 150
 	if ctx.Thorough() {
